@@ -43,11 +43,13 @@ class Check(BaseCheck):
     leanchecker_mods = ["LapyVerif.Props.C13"]
     rule = ("all triangle generator families (+ tetra meshes for avg_edge_length) x rigid motions / relabellings; every measure compared "
             "with the model (1e-9 relative), offsets d in a random range; distinct by hash of (v, t)")
-    trusted = ["vertex_areas / vertex_normals / avg_edge_length / centroid / normalize_ / normal_offset_ are tied to the model by the differential "
-               "check only (not traceable or too large to bridge); tria_areas, area, volume, tria_normals, tria_qualities are re-traced and bridged"]
+    trusted = ["tria_areas, area, volume, tria_normals, tria_qualities, centroid, normalize_, vertex_areas, avg_edge_length, vertex_normals, "
+               "normal_offset_ are re-traced from the source on every run (on the boundary of a generic tetrahedron) and bridged to the model by "
+               "proof; the generalisation from that topology to all meshes is what the differential check samples"]
 
     def translate(self):
         extract.gen_measures()
+        extract.gen_vertex_measures()
 
     def correspond(self, drv, stats):
         fails = []
